@@ -171,6 +171,15 @@ func VerifyFunc(p *Prog, fi *FuncInfo, modeOverride string) *VC {
 				if lbl == "" {
 					lbl = fmt.Sprintf("%d", i+1)
 				}
+				if strings.HasPrefix(lbl, "assumed-") {
+					// `ensures [assumed-...] P`: exported to callers, NOT proved against the body: an
+					// assumption (listed with the trusted base of every check that uses the function)
+					vc.Assumed = append(vc.Assumed, ShortKey(fi.Key)+": "+en.Text)
+					if vc.Trusted != nil {
+						vc.Trusted["assumed postcondition of "+ShortKey(fi.Key)+": "+en.Text] = true
+					}
+					continue
+				}
 				env := &specEnv{vc: vc, st: r.st, old: entry, names: names, pkg: fr.ctx.pkg, allocB: vc.alloc0}
 				g := env.evalBool(en.Expr)
 				for _, cj := range splitConj(g) {
